@@ -162,7 +162,7 @@ func cmdRun(argv []string) int {
 						h.kfKnown[id] = true
 					}
 				}
-				h.sampleEvery = 1
+				h.sampleEvery = 7
 				if mode != "" {
 					h.sampleEvery = 0
 				}
